@@ -138,9 +138,9 @@ func writeEvidence(cfg *CheckConfig, tier string, seed int64, stats []*entryStat
 		"wall_s":      round3(x.wall),
 		"violations":  x.nViol,
 	}
-	os.MkdirAll(filepath.Join(verifDir, "evidence"), 0o755)
+	os.MkdirAll(evidenceDir(), 0o755)
 	b, _ := json.MarshalIndent(ev, "", " ")
-	os.WriteFile(filepath.Join(verifDir, "evidence", cfg.Property+".json"), b, 0o644)
+	os.WriteFile(filepath.Join(evidenceDir(), cfg.Property+".json"), b, 0o644)
 }
 
 func writeEvidenceError(cfg *CheckConfig, tier string, seed int64, wall float64, msg string) {
@@ -150,9 +150,9 @@ func writeEvidenceError(cfg *CheckConfig, tier string, seed int64, wall float64,
 			"samples": []string{"engine error before exploration: " + msg}, "verdict": "engine-error"},
 		"assumptions": cfg.Assumptions, "wall_s": round3(wall), "violations": 0,
 	}
-	os.MkdirAll(filepath.Join(verifDir, "evidence"), 0o755)
+	os.MkdirAll(evidenceDir(), 0o755)
 	b, _ := json.MarshalIndent(ev, "", " ")
-	os.WriteFile(filepath.Join(verifDir, "evidence", cfg.Property+".json"), b, 0o644)
+	os.WriteFile(filepath.Join(evidenceDir(), cfg.Property+".json"), b, 0o644)
 }
 
 func round3(f float64) float64 { return float64(int64(f*1000+0.5)) / 1000 }
@@ -177,4 +177,14 @@ func crossSum(rs *runState, i int) int {
 		n += v[i]
 	}
 	return n
+}
+
+// evidenceDir: /verif/evidence; scratch runs against a copy of the repository
+// (GOSYM_REPO, development aid) write under .work instead so that they never
+// replace the evidence of a run against /repo itself.
+func evidenceDir() string {
+	if os.Getenv("GOSYM_REPO") != "" {
+		return filepath.Join(verifDir, ".work", "scratch-evidence")
+	}
+	return filepath.Join(verifDir, "evidence")
 }
